@@ -69,9 +69,10 @@ class FIBDemux(Device):
             self.ends[flow_id].put(packet)
         else:
             try:
-                assert self.outs
-                self.outs[self._fib[packet.flow_id]].put(packet)
+                # a demux without output list has no ports to look up
+                out = (self.outs or [])[self._fib[packet.flow_id]]
             except (KeyError, IndexError, ValueError) as exc:
                 print("FIB Demux Error: " + str(exc))
-                if self.default_out:
-                    self.default_out.put(packet)
+                out = self.default_out
+            if out:
+                out.put(packet)
